@@ -80,6 +80,7 @@ static char h_crlf[3];
 
 /* ---------------- ghost log of the environment ---------------- */
 static struct cat_object g_old;      /* snapshot of the object at the call                                   */
+static uint8_t g_oldvdata[H_NC][H_NV][H_DS]; /* snapshot of every variable's storage at the call */
 static uint8_t g_oldbuf[H_BUFSZ];    /* snapshot of the working buffer(s) at the call                          */
 #if !H_SHARED
 static uint8_t g_oldubuf[H_UBUFSZ + 1];
@@ -211,6 +212,7 @@ static cat_return_state e_cmd_write(const struct cat_command *cmd, const uint8_t
 {
         e_note_callback();
         e_h_calls++; e_h_kind = E_KIND_WRITE; e_h_cmd = cmd; e_h_data = data; e_h_size = data_size; e_h_args = args_num;
+        e_h_nul_ok = (data[data_size] == 0);
         e_reenter();
         return e_ret_code();
 }
